@@ -23,7 +23,8 @@ RULE = ("Parameter grids over the fixture model's kwargs (a, b: small lists with
         "max_timesteps)] (product order repeated `repetitions` times when processes == 1); every result is pure (one signature, "
         "consecutive timesteps from 0, none at/after the limit or the completion); collectors=None -> []; an injected failure "
         "reaches the caller as InjectedFailure with that combination; invalid collectors type -> AttributeError. Non-trivial: "
-        ">= 2 combinations x >= 2 repetitions with >= 2 processes, or a failure injected at a position > 0. Distinct = digest.")
+        ">= 2 combinations x >= 2 repetitions with >= 2 processes, or a failure injected at a position > 0. Distinct = digest."
+        " Added in rounds 19-24: a ParameterList object that served an earlier experiment (built, every name removed and declared again); the caller may inspect build() first and edit what it was handed.")
 EXHAUSTIVE_DOMAIN = ("two 3-run batches in which one execution (a healthy one / the failing one) sleeps 1.3 s while the others take milliseconds; fixed grids (2x2, 3x1 [quick]; + 2x2x2 [thorough]) x processes 1..3 (thorough 1..16) x failing position "
                      "0..n-1 x {constructor, system} and the no-failure run")
 ASSUMPTIONS = ["the OS schedule is perturbed (per-run sleeps, process counts) but not owned: a loss that needs one particular "
